@@ -7,6 +7,7 @@ import (
 	"encoding/json"
 	"fmt"
 	"math/rand/v2"
+	"slices"
 	"strings"
 	"sync"
 	"sync/atomic"
@@ -406,6 +407,40 @@ func (eng) Run(c core.CaseDesc, tier string) *core.CaseResult {
 	if d := compare(src, p.C, cf.Shallow); d != "" {
 		res.Violate("C09/diverged/"+sig, "the source stopped changing, the connection is up and the system is stable, but the mirror differs: "+d,
 			ctxInfo(map[string]any{"calls": calls}))
+	}
+	// tail: once everything is in sync, one more source-local change that swaps
+	// an active state for an inactive one (the number of active states, and
+	// with it a shallow time sum, stays the same), then quiet again
+	if len(res.Violations) == 0 {
+		act := src.ActiveStates(nil)
+		var on, off string
+		for _, n := range []string{"B", "C", "D", "A"} {
+			if slices.Contains(act, n) && on == "" {
+				on = n
+			} else if !slices.Contains(act, n) && off == "" {
+				off = n
+			}
+		}
+		if on != "" && off != "" {
+			next := am.S{off}
+			for _, n := range act {
+				if n != on && n != am.StateException {
+					next = append(next, n)
+				}
+			}
+			src.Set(next, am.A{"uid": rec.NextUid()})
+			<-src.WhenQueueEnds()
+			res.Evals++
+			if why := stabilize(p, cf); why != "" {
+				res.Inconclusive = "after the swap: " + why
+				return res
+			}
+			if d := compare(src, p.C, cf.Shallow); d != "" {
+				res.Violate("C09/diverged/"+sig+"/after-swap", fmt.Sprintf("after a source-local Set that swapped %s for %s (same number of active states) and a quiet period the mirror differs: %s", on, off, d),
+					ctxInfo(map[string]any{"calls": calls}))
+			}
+			res.Key("swap-tail", cf.mode(), cf.PushMs)
+		}
 	}
 	res.Count("client_calls", int64(len(calls)))
 	res.Count("updates_accepted", int64(am.VerifHookHits()["cli.update.accepted"]))
